@@ -13,6 +13,7 @@ import (
 	"sync"
 
 	"kmc/core"
+	"kmc/litmus"
 
 	"github.com/sboehler/knut/lib/model/registry"
 )
@@ -155,4 +156,18 @@ func tailStr(s string, n int) string {
 		ls = ls[len(ls)-n:]
 	}
 	return strings.Join(ls, "\n")
+}
+
+// runLitmus gates every scheduler-based claim on the conformance of the substituted
+// runtime with the real Go runtime and the real conc/errgroup libraries (DESIGN 3.3).
+func runLitmus(e *core.Env) {
+	if !e.Take() {
+		return
+	}
+	n, fails := litmus.Selftest(core.Pick(e, 150, 1000))
+	e.Add("litmus_executions", n)
+	e.Add("traces_validated_against_impl", core.Pick(e, 150, 1000)*10)
+	for _, f := range fails {
+		e.EngineError("litmus conformance: %s", f)
+	}
 }
